@@ -8,7 +8,7 @@ P = {'id': 'C05',
              'is_final/transition with the default accepts / longest_prefix of src/fsa/traits.rs): default and cache_optimized presets, custom Patricia '
              'configs, the Trie-trait face, PatriciaTrie / CritBitTrie aliases',
              'modelled (M+S): CompressedSparse storage (same trie, remove is a no-op) for sparse_optimized, custom config, CompressedSparseTrie wrapper; LOUDS '
-             'storage as a flat [len][bytes] record buffer (insert_louds, contains_louds_internal, keys_louds_actual after fix d5ef1b8, stub FSA view) for '
+             'storage as a flat [len][bytes] record buffer (insert_louds, contains_louds_internal, keys_louds_actual after fix c7ec3ed, stub FSA view) for '
              'space_optimized, custom config, NestedLoudsTrie wrapper; CriticalBit stubs (finding)',
              'spec-only cells (direct BTreeSet oracle, no mechanism model): DoubleArray storage (concurrent_high_performance preset, custom config, '
              'DoubleArrayTrie wrapper with two capacities), NestedTrieDawg (Trie::insert and build_from_keys), SimpleDawg, ParallelLoudsTrie (single-threaded '
